@@ -10,10 +10,15 @@ Helper definitions and lemmas for `Props/C03.lean` (symplecticity of the integra
                         show that the lifted matrix is the exact derivative of the step.
 * `SympLift FT f`     — `FT` acts as `(x, D) ↦ (f t x, M * D)` with `M` symplectic (`M` may depend on
                         `t` and `x` but not on `D`).
+* `IsTan C N T`       — the columns of `T` are tangent vectors of the cotangent bundle of the affine
+                        manifold `{C q = d}`: `C δq = 0` and `C N δp = 0`.
+* `PresympOn C N M`   — `M` maps tangent vectors to tangent vectors and preserves the canonical
+                        two-form on them (`(M T)ᵀ J (M T) = Tᵀ J T`); closed under products.
 * unfolding lemmas for `symComp`, `flowsList`, `steps`, `pack`/`unpack`.
 -/
 import MiciVerif.Model.IntegratorsTangent
 import Mathlib.LinearAlgebra.SymplecticGroup
+import Mathlib.Data.Matrix.ColumnRowPartitioned
 
 namespace MiciVerif.Integrators
 
@@ -156,5 +161,41 @@ theorem steps_sympLift {FT : K → TState n K → TState n K} {f : K → Phase n
       simp only [steps, Function.iterate_succ_apply']
     rw [e1, e2, hMD D]
     simp only [step, hMD', hdir, Matrix.mul_assoc]
+
+/-! ### Restricted (pre)symplecticity on the tangent bundle of a linear constraint manifold -/
+
+/-- The columns of `T` (rows indexed by `(δq, δp)`) are tangent to
+`{(q, p) : C q = d, C N p = 0}`. -/
+def IsTan {m k : Nat} (C : Matrix (Fin m) (Fin n) K) (N : Mat n K)
+    (T : Matrix (Fin n ⊕ Fin n) (Fin k) K) : Prop :=
+  C * T.toRows₁ = 0 ∧ C * N * T.toRows₂ = 0
+
+/-- `M` preserves the tangent bundle and the canonical two-form restricted to it. -/
+def PresympOn {m : Nat} (C : Matrix (Fin m) (Fin n) K) (N : Mat n K) (M : Mat2 n K) : Prop :=
+  ∀ (k : Nat) (T : Matrix (Fin n ⊕ Fin n) (Fin k) K), IsTan C N T →
+    IsTan C N (M * T) ∧ (M * T)ᵀ * J (Fin n) K * (M * T) = Tᵀ * J (Fin n) K * T
+
+theorem PresympOn.one {m : Nat} (C : Matrix (Fin m) (Fin n) K) (N : Mat n K) :
+    PresympOn C N 1 := fun k T h => by simpa using h
+
+theorem PresympOn.mul {m : Nat} {C : Matrix (Fin m) (Fin n) K} {N : Mat n K} {M₁ M₂ : Mat2 n K}
+    (h₁ : PresympOn C N M₁) (h₂ : PresympOn C N M₂) : PresympOn C N (M₁ * M₂) := by
+  intro k T hT
+  obtain ⟨t2, f2⟩ := h₂ k T hT
+  obtain ⟨t1, f1⟩ := h₁ k (M₂ * T) t2
+  rw [Matrix.mul_assoc]
+  exact ⟨t1, f1.trans f2⟩
+
+theorem PresympOn.pow {m : Nat} {C : Matrix (Fin m) (Fin n) K} {N : Mat n K} {M : Mat2 n K}
+    (h : PresympOn C N M) (k : Nat) : PresympOn C N (M ^ k) := by
+  induction k with
+  | zero => simpa using PresympOn.one C N
+  | succ k ih => rw [pow_succ]; exact ih.mul h
+
+/-- The canonical two-form on the columns of `[Tq; Tp]`. -/
+theorem form_fromRows {k : Nat} (Tq Tp : Matrix (Fin n) (Fin k) K) :
+    (fromRows Tq Tp)ᵀ * J (Fin n) K * fromRows Tq Tp = Tpᵀ * Tq - Tqᵀ * Tp := by
+  rw [transpose_fromRows, J, Matrix.mul_assoc, fromBlocks_mul_fromRows, fromCols_mul_fromRows]
+  simp [sub_eq_add_neg, add_comm]
 
 end MiciVerif.Integrators
